@@ -32,7 +32,7 @@ MANIFEST_ENTRY = {
             "other than a chunk header or the end node carries the used mark), from which: after any history dealloc (and realloc) of ANY non-nil pointer that is "
             "not a live block panics - double frees, pointers of an earlier generation, pointers into payloads, one past the end of the buffer "
             "(C11_heap_mem_invalid_free_reported, full strength after the repairs 9ef0717 and d9328b9). The size clause of the heap hypothesis is exactly the check of add_memory_region (room for two nodes, repair 23ac203) and the end node is "
-            "16-aligned for every configuration (C11_heap_geometry), so the word-addressed memory of the model is exact (C11_heap_mem_writes_aligned). ONE OPEN FINDING: AlignedAllocator:alloc(0) returns a pointer although documented to return nilptr (C11_aligned_alloc_zero_refuted). Every write of the memory-level heap goes to a header word of an old or new chunk, so no operation changes a word of a block that stays live (C11_heap_mem_payload_frame). The derived operations of Allocator_implement_interface (alloc0/realloc0/x*/span*/new/delete) are modelled "
+            "16-aligned for every configuration (C11_heap_geometry), so the word-addressed memory of the model is exact (C11_heap_mem_writes_aligned). Every write of the memory-level heap goes to a header word of an old or new chunk, so no operation changes a word of a block that stays live (C11_heap_mem_payload_frame). The derived operations of Allocator_implement_interface (alloc0/realloc0/x*/span*/new/delete) are modelled "
             "generically over the primitives with theorems that they are the stated primitive calls; span counts and AlignedAllocator requests never wrap "
             "(C11_arena_span_in, C11_aligned_fits: full strength after the repairs 942989e, 532034f). TESTING ONLY (shadow-map oracle on the real allocators): "
             "heap/stack/pool payload contents at the memory level, AlignedAllocator over whole histories, the derived operations on the real code, release builds. "
@@ -55,7 +55,7 @@ THEOREM_CLASSES = {
     "C11_heap_mem_invalid_free_reported": "main", "C11_heap_mem_invalid_free_reported_full": "corollary",
     "C11_heap_mem_invalid_realloc_reported": "corollary",
     "C11_heap_mem_payload_frame": "main", "C11_heap_mem_writes_aligned": "main", "C11_heap_geometry": "definitional",
-    "C11_heap_deallocall_clears_iff_policy": "main", "C11_aligned_alloc_zero_refuted": "refutation",
+    "C11_heap_deallocall_clears_iff_policy": "main", "C11_aligned_alloc_zero": "definitional",
     "C11_heap_realloc_preserves": "main", "C11_heap_alloc0_zeroes": "definitional", "C11_heap_realloc0_zeroes": "definitional",
     "C11_iface_alloc0": "definitional", "C11_iface_xalloc": "definitional", "C11_iface_xrealloc": "definitional",
     "C11_iface_realloc0": "definitional", "C11_iface_spanalloc": "main", "C11_iface_spanrealloc": "definitional",
@@ -66,7 +66,7 @@ THEOREM_CLASSES = {
 ALLOWED_AXIOMS = []
 TRUSTED_BASE = [
     "coqc 8.16.1 kernel (vm_compute used for parameter facts and refutation witnesses; no native_compute)",
-    "no axioms: every theorem of coq/C11/Properties.v is 'Closed under the global context'; models mirror lib/allocators after the repairs 484ce8f, 961d315, 942c78c, b8d094a, 942989e, 532034f, 9ef0717, d9328b9, 23ac203",
+    "no axioms: every theorem of coq/C11/Properties.v is 'Closed under the global context'; models mirror lib/allocators after the repairs 484ce8f, 961d315, 942c78c, b8d094a, 942989e, 532034f, 9ef0717, d9328b9, 23ac203, ccd321a",
     "translator checks/C11.py:gen (regex scrape of ALLOC_ALIGN/MIN_ALLOC_SIZE/BIN_COUNT/BIN_MAX_LOOKUPS/NODE_COOKIE/HeapNode fields/get_bin_index constants in heap.nelua, the mark-clearing walk of HeapAllocatorT:deallocall as the boolean DEALLOCALL_CLEARS_MARKS, StackAllocHeader + static asserts in stack.nelua, default ALIGN in arena.nelua; typedefs.maxalign and pointer size probed through the real compiler)",
     "extraction: Require Extraction + ExtrOcamlBasic only; Z/positive/nat stay Coq inductives; no Extract Constant of our own",
     "ocaml/zutil.ml + coq/C11/driver.ml (line protocol, handle table, closures handing an instance's primitives to the extracted interface wrappers, printing of the model state), harness/C11/driver.nelua (calls the allocators, keeps the handle table, prints offsets and internal state read through the allocator records), OCaml 4.13.1, gcc, the Nelua compiler itself (the driver is compiled by it, default checked build)",
@@ -550,7 +550,7 @@ def _pick_size(kind, sh, rng, P, for_realloc=None):
             v = max(1, sh.cap - getattr(sh, "curr", 0) - 8 - sh.align + rng.choice([0, 1, 2, -1, 7, 8, sh.align, -sh.align]))
         elif q < .36:
             v = M64 - 8 - sh.align + rng.choice([-1, 0, 1, 2, 7, 8, sh.align - 1, sh.align, sh.align + 7])
-        # size 0 stays out of the random aligned streams while 'aligned(arena(1024,8),64): alloc 0' is an open finding
+        # (size 0 stays out of the random aligned streams only while an 'aligned(...): alloc 0' finding is open)
         return min(max(v, 1 if AVOID_ALIGNED_ZERO else 0), M64 - 1)
     if kind in ("arena", "stack"):
         A, S = sh.align, sh.cap
@@ -770,10 +770,10 @@ def run_history(R, rng, nops, style):
 
 
 # --------------------------------------------------------------------------------------------
-# histories of the twelve repaired defects (replayed every run, must pass) and scripted precondition-violating histories
+# histories of the thirteen repaired defects (replayed every run, must pass) and scripted precondition-violating histories
 # --------------------------------------------------------------------------------------------
 BIG = M64 - 8
-# each was a known finding until the fix commits 484ce8f / 961d315 / 942c78c / b8d094a / 942989e / 532034f / 9ef0717 / d9328b9 / 23ac203; the text says what used to fail
+# each was a known finding until the fix commits 484ce8f / 961d315 / 942c78c / b8d094a / 942989e / 532034f / 9ef0717 / d9328b9 / 23ac203 / ccd321a; the text says what used to fail
 REGRESSIONS = [
     # key, instance, ops, what used to fail
     ("arena(64,8): alloc 16; alloc 18446744073709551608; alloc 8", "a0",
@@ -819,16 +819,16 @@ REGRESSIONS = [
      "Heap:add_memory_region only checked that the region holds ONE node but places two: for a region of offset+32 .. offset+63 bytes the size of "
      "the start node underflowed to about 2^64 and HeapAllocator(48):alloc(100) returned a 100-byte block at offset 40 of the 48-byte buffer",
      True),
+    # repaired by ccd321a
+    ("aligned(arena(1024,8),64): alloc 0", "g0", ["alloc 0 0", "realloc 1 0", "alloc 2 953 !"],
+     "AlignedAllocator:alloc(0) returned a non-nil pointer although its own documentation and the Allocator interface say 'If size is zero or the "
+     "operation fails, then returns nilptr': the wrapped allocator was asked for #pointer + ALIGN - 1 bytes that nobody can use, and realloc(nilptr, 0, 0) "
+     "returned a pointer too"),
 ]
 
 # defects of the unchanged tree that are still open: replayed every run, reported under their exact key
 # (listed in known_findings/C11.json; proposed repair in harness/C11/proposed_repairs/)
-KNOWN_DEFECTS = [
-    ("aligned(arena(1024,8),64): alloc 0", "g0", ["alloc 0 0"],
-     "AlignedAllocator:alloc(0) returns a non-nil pointer although its own documentation and the Allocator interface say 'If size is zero or the "
-     "operation fails, then returns nilptr' (as every other allocator does): the wrapped allocator is asked for #pointer + ALIGN - 1 bytes that nobody "
-     "can use, realloc(nilptr, 0, 0) returns a pointer too, and the span operations drop such a block silently (spanrealloc of an empty span)"),
-]
+KNOWN_DEFECTS = []
 AVOID_ALIGNED_ZERO = any(k.startswith("aligned(") and k.endswith(": alloc 0") for k, _, _, _ in KNOWN_DEFECTS)
 
 # undefined behaviour visible under -fsanitize=alignment only (harness/C11/ubprobe.nelua); repaired by 23ac203, the probe must stay clean
@@ -1173,7 +1173,6 @@ def correspond(ctx):
 
 
 UNPROVED = [
-    "aligned_alloc_zero_nil_full (Aligned.v: alloc(0) returns nilptr, as documented) is FALSE of the code (C11_aligned_alloc_zero_refuted, open finding 'aligned(arena(1024,8),64): alloc 0', repair proposed in harness/C11/proposed_repairs/06-aligned-alloc-zero.diff); size 0 is kept out of the random aligned streams until it is repaired",
     "of the repairs mirrored by hand only 9ef0717 (deallocall clears the marks) has a scraped discriminator the proofs depend on (Gen.DEALLOCALL_CLEARS_MARKS, deallocall_policy, C11_heap_deallocall_clears_iff_policy); for the others (overflow tests, get_ptr_node's size test, region geometry) a revert is noticed by the replayed witnesses and the correspondence, not by a broken proof",
     "heap payload CONTENTS at the memory level: C11_heap_mem_payload_frame proves that the allocator's own writes never touch a live payload, but realloc's memory.copy of a moved block is modelled on the separate byte function (hb_bytes) only, not in the word memory of Heap.v; stack/pool have no such memory-level frame theorem (their headers/links are in-band and covered by the safe theorems' client-write frame condition)",
     "pool: pool_good has no alignment clause beyond 'is a chunk start' (the alignment of T inside the chunk union is the compiler's layout, property C03)",
